@@ -181,12 +181,37 @@ def perform(call, P, M=None, R=None):
     raise AssertionError(a)
 
 
+def shown_flag(x):
+    """the sign flag an operand object shows (attribute reads only); 2 when it is a conditional whose own
+    flag differs from the flags of its branches - not an unambiguous declaration (Expr!ShownFlag)"""
+    if ser.kind(x) == "tst":
+        f = 1 if x.sf else 0
+        return f if (shown_flag(x.l) == f and shown_flag(x.r) == f) else 2
+    return 1 if x.sf else 0
+
+
 def exc_str(e):
     return "%s: %s" % (type(e).__name__, str(e)[:80])
 
 
+_QUIET = [False]
+
+
+def quiet():
+    """amoco logs every rejected ill-sized call at ERROR level; the replayer records them itself"""
+    if not _QUIET[0]:
+        _QUIET[0] = True
+        try:
+            import logging
+            from amoco import logger as L
+            L.set_log_all(logging.CRITICAL)
+        except Exception:
+            pass
+
+
 def replay(tid, beh, seed, threshold):
     """-> trace record for ExprTrace.tla"""
+    quiet()
     from amoco.config import conf
     from amoco.cas.expressions import cst
     from amoco.cas.mapper import mapper
@@ -211,8 +236,8 @@ def replay(tid, beh, seed, threshold):
             e = dict(call)
             if call["act"] == "bin":
                 l, r = P[call["i"] - 1], P[call["j"] - 1]
-                e["lsf"] = 1 if l.sf else 0
-                e["rsf"] = 1 if r.sf else 0
+                e["lsf"] = shown_flag(l)
+                e["rsf"] = shown_flag(r)
                 e["lc"] = 1 if (ser.kind(l) == "cst" and (l.v >> (l.size - 1)) == 0) else 0
                 e["rc"] = 1 if (ser.kind(r) == "cst" and (r.v >> (r.size - 1)) == 0) else 0
             try:
